@@ -105,7 +105,16 @@ class Field:
             self.__get__(instance)._update(value)
         else:  # TODO check if below is really needed
             ftype, offset = self.get_offset(instance)
-            ftype._to_buffer(instance._buffer, offset, value)
+            info = None
+            if ftype._size is None:  # cannot outgrow the reserved space
+                info = ftype._inspect_args(value)
+                reserved = Int64._from_buffer(instance._buffer, offset)
+                if info.size > reserved:
+                    raise ValueError(
+                        f"{value} does not fit in field `{self.name}`"
+                    )
+                info.size = reserved
+            ftype._to_buffer(instance._buffer, offset, value, info)
 
     def get_offset(self, instance):  # compatible with info
         if self.is_reference:
